@@ -685,6 +685,13 @@ def _receiver_class(prog, b, argterm):
             return _receiver_class(prog, b, base[2][0]) if base[2] else (None, show(root))
     if isinstance(t, tuple) and t[0] == "arg":
         return b.locals[t[1]].get("adt"), show(root)
+    if isinstance(t, tuple) and t[0] == "call" and norm(t[1]) in ("strong::Rc::into_raw", "weak::Weak::into_raw") and t[2]:
+        # the word of a handle that was just given up (`let ptr = self.into_raw()`): the handle's class
+        x = strip(t[2][0])
+        while isinstance(x, tuple) and x[0] in ("ref", "deref", "load"):
+            x = strip(x[1])
+        if isinstance(x, tuple) and x[0] == "arg":
+            return b.locals[x[1]].get("adt"), show(root)
     return None, show(root)
 
 
@@ -1419,6 +1426,42 @@ def rule_weak_protocol(ctx):
         for c in callers:
             if c not in (TRY_DEALLOC, DGN):
                 r.violate(c, "call:dealloc", "RcInner::dealloc may only be called from try_dealloc and the dispose cascade")
+    # (5) WEAKED is set by whatever adds the first weak share - in every function that adds one, not only increment_weak: the
+    #     destruction frees the block on the spot when it finds the flag clear (S-C03-8: `Rc::into_weak` moving one unit from the
+    #     strong to the weak count in one CAS, without the flag)
+    cand = {a["fn"] for a in ctx.scan_accesses() if a["op"] != "load"}
+    cand |= {nm for nm, b in prog.bodies.items() if not nm.startswith("utils::") and b.kind != "closure" and "::test" not in nm
+             and nm not in prog.auto_inline() and any((c.target or "") in prog.auto_inline() for (_, _, c) in b.calls())}
+    for f in sorted(cand):
+        try:
+            fpaths = ctx.paths(f)
+        except AnalysisError:
+            continue
+        seen_sites = set()
+        for p in fpaths:
+            if p.exit[0] == "diverge":
+                continue
+            sites = [s_ for s_ in ctx.sites_on_path(p) if s_["outcome"] == "ok"]
+            preds = ctx.predicates(p)
+            flagged = False      # WEAKED known set on this path so far (the flag is never cleared: CW-SITES)
+            for s_ in sites:
+                d = s_["delta"].get("weak")
+                sets = const_of(s_["sets"].get("weaked", ("c", None, ""))) == 1
+                seen_true = any(q["field"] == "weaked" and q["rel"] == "==" and const_of(q["rhs"]) == 1 and not q["exp"]
+                                for q in preds)
+                if d and d[0] > 0:
+                    okw = sets or flagged or seen_true
+                    key = (f, s_["event"].body.name, s_["event"].bb, okw)
+                    if key not in seen_sites:
+                        seen_sites.add(key)
+                        n += 1
+                        r.instance("%s: a weak share is added with WEAKED set (by this RMW, an earlier one, or observed)" % f.split("::")[-1], okw)
+                        if not okw:
+                            r.violate(f, "weaked", "adds a weak share without WEAKED being set (not by this RMW, not observed set before): "
+                                      "when the object is destructed the cascade finds the flag clear and frees the block on the spot, "
+                                      "under the weak handle", s_["event"].loc())
+                if sets or (d and d[0] > 0 and (sets or seen_true)):
+                    flagged = True
     r.require(n, 8, "weak protocol instances")
     return r
 
